@@ -233,6 +233,14 @@ impl Ctx {
                 }
                 Ok(())
             }
+            Err(CheckError::Violation(v)) if self.id != "C14" && foreign_port_clash(v) => {
+                // somebody else on this machine sat on the case's lock port: says nothing about monorail
+                let mut st = self.stats.lock().unwrap();
+                if st.inconclusive.len() < 20 {
+                    st.inconclusive.push(format!("{}: lock port was taken by a foreign process ([{}])", label, v.signature));
+                }
+                Ok(())
+            }
             Err(CheckError::Violation(v)) => {
                 if let Some(k) = self.is_known(v) {
                     let mut st = self.stats.lock().unwrap();
@@ -662,6 +670,13 @@ fn shrink_budget() -> Duration {
             .and_then(|s| s.parse().ok())
             .unwrap_or(60),
     )
+}
+
+/// The lock is a TCP bind on a per-case port; outside C14 no case has two invocations racing
+/// for it, so "address already in use" can only come from an unrelated process.
+fn foreign_port_clash(v: &Violation) -> bool {
+    let text = format!("{} {}", v.msg, v.observed);
+    text.contains("Lock acquisition failed: Address already in use")
 }
 
 fn load_known(id: &str) -> Vec<KnownFinding> {
